@@ -95,6 +95,19 @@ claim('C08',
       'exhaustive enumeration of zero-T patterns x state permutations against a generalised-eigenvalue reference',
       'DESIGN.md#c08')
 
+claim('C16',
+      'One Solver instance per back-end (klu, umfpack, spsolve): every sequence of <=3 (4) operations from {solve, linsolve '
+      '(5 matrices: regular, same pattern new values, other pattern, other size, singular), linsolve with a matrix '
+      'right-hand side, set factorize, set new_A, clear} is executed and every call the property names is checked with a '
+      'dense residual (A x = b to 1e-9, singular input never yields a finite x); native crashes and hangs are caught by '
+      'the runner. Routine level: three systems x back-end x linsolve x ipadd (x Newton variant): power-flow solution, '
+      'stored trajectory and eigenvalues equal the default configuration; bit-identical repetition in fresh processes '
+      'via sha1 digests of the raw results.',
+      'SciPy solve() without a pending refresh is documented to reuse its factorisation and is not judged; numba only in '
+      'thorough; matrices are 3x3/4x4 (the wrapper logic is size-independent).',
+      'explicit-state exploration of solver-call sequences + full configuration product against the default run',
+      'DESIGN.md#c16')
+
 _PENDING = 'check not built yet in this round; planned per DESIGN.md (bounded exhaustive exploration applies)'
 for _p in ALL:
     if _p not in CLAIMED:
